@@ -17,7 +17,8 @@ func checkC06(c *Check, a *Anchors) {
 		"exact execution counts under all interleavings (decided only: atomic check-and-register, waiters observe the outcome)",
 	}
 	c06RunModeSwitch(c, a)
-	c06DedupAtomic(c, a)
+	dedupAtomic(c, a, "dedup-atomic")
+	dedupEmptyKey(c, a)
 	sharedWait(c, a)
 	c06HashSeesInputs(c, a)
 	c06OnceKey(c, a)
@@ -75,7 +76,11 @@ func c06RunModeSwitch(c *Check, a *Anchors) {
 			return true
 		})
 		for _, e := range cc.List {
-			got[exprStr(e)] = fnName
+			if t := constText(info, e); t != "" {
+				got[t] = fnName
+			} else {
+				got[exprStr(e)] = fnName
+			}
 		}
 	}
 	var keys []string
@@ -92,102 +97,6 @@ func c06RunModeSwitch(c *Check, a *Anchors) {
 		}
 	}
 	c.Decide(defaultErr, "run-mode-switch", "default-errors@"+name, sw.Pos(), "unknown modes return an error", "an unknown run mode no longer returns an error")
-	// dedup: table consulted only for a non-empty key
-	d := a.Dedup
-	c.Fn(d)
-	f := NewFlow(c.P, d, a.labelRun(d.Info()))
-	f.Run()
-	n := 0
-	for node, st := range f.At {
-		as, ok := node.(*ast.AssignStmt)
-		if !ok || len(as.Rhs) != 1 {
-			continue
-		}
-		if ix, ok := ast.Unparen(as.Rhs[0]).(*ast.IndexExpr); ok && fieldSel(d.Info(), ix.X, PkgTask, "Executor", "executionHashes") {
-			n++
-			nonEmpty := false
-			for k := range st {
-				if strings.HasPrefix(k, "ne:") && strings.HasSuffix(k, `=""`) {
-					nonEmpty = true
-				}
-			}
-			c.Decide(nonEmpty, "run-mode-switch", "empty-key-executes-directly@"+fnDisplay(d), as.Pos(), "the table lookup is reached only when the key is not empty", "the execution table is consulted for the empty key: run: always tasks would be deduplicated")
-		}
-	}
-	c.Floor("run-mode-switch", n+5, 6)
-}
-
-func c06DedupAtomic(c *Check, a *Anchors) {
-	c.Rule("dedup-atomic", "the lookup of the key and the registering store happen inside one critical section of executionHashesMutex (no Unlock between them on the not-found path); the table is indexed nowhere else in the run phase")
-	d := a.Dedup
-	info := d.Info()
-	isMu := func(call *ast.CallExpr) bool {
-		sel, ok := ast.Unparen(call.Fun).(*ast.SelectorExpr)
-		return ok && fieldSel(info, sel.X, PkgTask, "Executor", "executionHashesMutex")
-	}
-	f := NewFlow(c.P, d, func(call *ast.CallExpr, obj types.Object) string {
-		if fn, ok := obj.(*types.Func); ok && isMu(call) {
-			switch fn.Name() {
-			case "Lock":
-				return "mu.Lock"
-			case "Unlock":
-				return "mu.Unlock"
-			}
-		}
-		return a.labelObj(obj)
-	})
-	f.Effect = func(label string, call *ast.CallExpr, st Facts) {
-		switch label {
-		case "mu.Lock":
-			st["held:mu"] = true
-		case "mu.Unlock":
-			delete(st, "held:mu")
-			delete(st, "section-of-lookup")
-		}
-	}
-	f.AssignEffect = func(s *ast.AssignStmt, st Facts) {
-		if len(s.Rhs) == 1 {
-			if ix, ok := ast.Unparen(s.Rhs[0]).(*ast.IndexExpr); ok && fieldSel(info, ix.X, PkgTask, "Executor", "executionHashes") && st.Has("held:mu") {
-				st["section-of-lookup"] = true
-			}
-		}
-	}
-	f.Run()
-	nL, nS := 0, 0
-	for node, st := range f.At {
-		as, ok := node.(*ast.AssignStmt)
-		if !ok {
-			continue
-		}
-		if len(as.Rhs) == 1 {
-			if ix, ok := ast.Unparen(as.Rhs[0]).(*ast.IndexExpr); ok && fieldSel(info, ix.X, PkgTask, "Executor", "executionHashes") {
-				nL++
-				c.Decide(st.Has("held:mu"), "dedup-atomic", "lookup-locked@"+fnDisplay(d), as.Pos(), "lookup under executionHashesMutex", "the execution table is read without holding executionHashesMutex")
-			}
-		}
-		if len(as.Lhs) == 1 {
-			if ix, ok := ast.Unparen(as.Lhs[0]).(*ast.IndexExpr); ok && fieldSel(info, ix.X, PkgTask, "Executor", "executionHashes") {
-				nS++
-				c.Decide(st.Has("held:mu") && st.Has("section-of-lookup"), "dedup-atomic", "register-in-lookup-section@"+fnDisplay(d), as.Pos(), "registered in the same critical section as the lookup",
-					"the registering store is not in the same critical section as the lookup (the mutex is released in between or not held): two concurrent callers can both miss and both execute a run: once task; must-facts: "+st.String())
-			}
-		}
-	}
-	if nL == 0 || nS == 0 {
-		c.Errorf("dedup-atomic: lookup (%d) or registering store (%d) not found", nL, nS)
-	}
-	// nowhere else
-	for _, fb := range c.P.Bodies() {
-		if fb.Root() == d || fb.Pkg.PkgPath != PkgTask {
-			continue
-		}
-		inspectBody(fb.Body, func(nd ast.Node) bool {
-			if ix, ok := nd.(*ast.IndexExpr); ok && fieldSel(fb.Info(), ix.X, PkgTask, "Executor", "executionHashes") {
-				c.Bad("dedup-atomic", "foreign-access@"+fnDisplay(fb), ix.Pos(), "the execution table is indexed outside the dedup function")
-			}
-			return true
-		})
-	}
 }
 
 func c06HashSeesInputs(c *Check, a *Anchors) {
@@ -306,11 +215,8 @@ func c06OnceKey(c *Check, a *Anchors) {
 		if isFunc(obj, "strings", "", "TrimPrefix") && len(call.Args) == 2 {
 			arg := ast.Unparen(call.Args[1])
 			okArg := fieldSel(linfo, arg, PkgAst, "Task", "Namespace")
-			if bl, isLit := arg.(*ast.BasicLit); isLit && bl.Value == `":"` {
-				okArg = true
-			}
-			if id, isId := arg.(*ast.Ident); isId && id.Name == "NamespaceSeparator" {
-				okArg = true
+			if constIs(linfo, arg, `":"`) {
+				okArg = true // the literal or the NamespaceSeparator constant
 			}
 			if !okArg {
 				onlyTrim = false
